@@ -820,8 +820,13 @@ EGLPNUM_TYPENAME_QSLIB_INTERFACE EGLPNUM_TYPENAME_QSdata *EGLPNUM_TYPENAME_QScop
 
 	if (p->qslp->intmarker != 0)
 	{
-		ILL_SAFE_MALLOC (p2->qslp->intmarker, p->qslp->nstruct, char);
+		/* ILLlib_addcol keeps intmarker as long as structmap (structsize entries) */
+		ILL_SAFE_MALLOC (p2->qslp->intmarker, p2->qslp->structsize, char);
 
+		for (j = 0; j < p2->qslp->structsize; j++)
+		{
+			p2->qslp->intmarker[j] = (char) 0;
+		}
 		for (j = 0; j < p->qslp->nstruct; j++)
 		{
 			p2->qslp->intmarker[j] = p->qslp->intmarker[j];
